@@ -144,6 +144,84 @@ def timestamp_clamped_before_update():
     raise Shape('`if module_param is not None` not found')
 
 
+def reply_update_precedes_release():
+    """program order of one pass of the receive loop: the ONLY call of self.updateValue in __rxthread is a plain
+    statement inside the try block that decodes the line (in `if action in UPDATE_MESSAGES: .. if module_param is not
+    None:`), and the ONLY `entry[1].set()` of the function is a plain statement of the loop body AFTER that try block
+    and after `entry[2] = action, ident, data`; the handler of that try block ends with `continue` (a line whose
+    cache update raised releases nobody).  So for reply / changed / error_read lines the cache is updated and the
+    callbacks have run before the waiting caller is released."""
+    rx = _rx()
+    loops = [n for n in walk_type(rx, ast.While) if _nospace(n.test) == 'self._running']
+    if len(loops) != 1:
+        raise Shape('__rxthread: expected one `while self._running` loop')
+    body = loops[0].body
+
+    def is_update_call(n):
+        return isinstance(n, ast.Call) and _nospace(n.func) == 'self.updateValue'
+
+    def is_set_call(n):
+        return isinstance(n, ast.Call) and isinstance(n.func, ast.Attribute) and n.func.attr == 'set'
+    upd_calls = [n for n in ast.walk(rx) if is_update_call(n)]
+    set_calls = [n for n in ast.walk(rx) if is_set_call(n)]
+    if len(upd_calls) != 1 or len(set_calls) != 1:
+        return 'bool', 'false'
+    # position of the try block holding the update, and of the release, among the statements of the loop body
+    i_try = i_set = i_fill = None
+    for i, st in enumerate(body):
+        if isinstance(st, ast.Try) and any(is_update_call(n) for n in ast.walk(st)):
+            i_try = i
+        if isinstance(st, ast.Expr) and is_set_call(st.value):
+            i_set = i
+        if _nospace(st) in ('entry[2]=(action,ident,data)', 'entry[2]=action,ident,data'):
+            i_fill = i
+    if i_try is None or i_set is None or i_fill is None:
+        return 'bool', 'false'
+    tr = body[i_try]
+    ok = i_try < i_fill < i_set and _nospace(body[i_set]) == 'entry[1].set()'
+    # the update is a plain statement of `if module_param is not None:` inside `if action in UPDATE_MESSAGES:` in the
+    # try body (not in a handler, not in finally, not deferred into a nested function)
+    blk = _update_block()
+    inner = [n for n in walk_type(blk, ast.If) if _nospace(n.test) == 'module_paramisnotNone']
+    ok = ok and len(inner) == 1 and any(isinstance(st, ast.Expr) and st.value is upd_calls[0] for st in inner[0].body)
+    ok = ok and any(blk is n for st in tr.body for n in ast.walk(st))
+    ok = ok and not [n for n in walk_type(rx, (ast.FunctionDef, ast.Lambda)) if n is not rx]
+    # a failing update goes to the next line without releasing anybody
+    ok = ok and len(tr.handlers) == 1 and _nospace(tr.handlers[0].type) == 'Exception' \
+        and isinstance(tr.handlers[0].body[-1], ast.Continue) and not tr.finalbody
+    return 'bool', cbool(ok)
+
+
+def reply_error_not_stored_again():
+    """repaired shape of repository commit 276f60f: get_reply marks the error it raises for an error reply
+    (`error = make_secop_error(*data[0:2]); error.from_reply = True; raise error`), and readParameter tests the mark
+    BEFORE comparing with the cached readerror and returns the cache item without a second updateValue
+    (`if getattr(e, 'from_reply', False) or e == result.readerror: return result`); the fallback
+    `self.updateValue(module, parameter, None, time.time(), e)` follows that test"""
+    cl = find_class(parse(CLIENT), 'SecopClient')
+    g = find_func(cl, 'get_reply')
+    ok1 = False
+    for n in walk_type(g, ast.If):
+        if _nospace(n.test) == 'action.startswith(ERRORPREFIX)':
+            ok1 = [_nospace(x) for x in n.body] == ['error=make_secop_error(*data[0:2])', 'error.from_reply=True',
+                                                    'raiseerror'] and not n.orelse
+    r = find_func(cl, 'readParameter')
+    body = [x for x in r.body if not (isinstance(x, ast.Expr) and isinstance(x.value, ast.Constant))]
+    ok2 = False
+    if len(body) == 2 and isinstance(body[0], ast.Try) and len(body[0].handlers) == 1:
+        tr = body[0]
+        h = tr.handlers[0]
+        hb = [_nospace(x) for x in h.body]
+        ok2 = [_nospace(x) for x in tr.body] == ['self.request(READREQUEST,self.identifier[module,parameter])'] \
+            and _nospace(h.type) == 'SECoPError' and h.name == 'e' \
+            and hb == ['result=self.cache[module,parameter]',
+                       "ifgetattr(e,'from_reply',False)ore==result.readerror:returnresult",
+                       'self.updateValue(module,parameter,None,time.time(),e)'] \
+            and not tr.orelse and not tr.finalbody \
+            and _nospace(body[1]) == 'returnself.cache.get((module,parameter),None)'
+    return 'bool', cbool(ok1 and ok2)
+
+
 def shorthand_lookup_shape():
     """missing ':value'/':target': only for a non-empty identifier without colon (repaired shape of commit 0fe05ab);
     target exactly for WRITEREPLY"""
@@ -225,7 +303,8 @@ def array_validate_pads_previous():
 
 
 FACTS = [array_validate_pads_previous, predefined_names, error_classes, error_names, error_default_is_InternalError, update_messages_ok,
-         timestamp_clamped_before_update, shorthand_lookup_shape, update_value_order, callback_iterates_copy,
+         timestamp_clamped_before_update, reply_update_precedes_release, reply_error_not_stored_again,
+         shorthand_lookup_shape, update_value_order, callback_iterates_copy,
          internalize_shape]
 
 _cl = lambda: find_class(parse(CLIENT), 'SecopClient')
@@ -237,6 +316,7 @@ FINGERPRINTS = {
     'SecopClient.internalize_name': lambda: find_func(_cl(), 'internalize_name'),
     'SecopClient.setParameter': lambda: find_func(_cl(), 'setParameter'),
     'SecopClient.readParameter': lambda: find_func(_cl(), 'readParameter'),
+    'SecopClient.get_reply': lambda: find_func(_cl(), 'get_reply'),
     'ProxyClient.callback': lambda: find_func(_pc(), 'callback'),
     'ProxyClient.register_callback': lambda: find_func(_pc(), 'register_callback'),
     'ProxyClient.unregister_callback': lambda: find_func(_pc(), 'unregister_callback'),
